@@ -159,7 +159,7 @@ Proof.
   unfold abs, commit, cleanups, sp_commit. simpl. unfold kv_commit.
   destruct (mode1 s).
   - destruct (observe_rows (default [] (txs s !! S t))
-       (St (apply_batch (default [] (txs s !! S t)) (rows s)) (li s) (si s) (lov s) (sov s) (txs s) true (dedup s)))
+       (St (apply_batch (default [] (txs s !! S t)) (rows s)) (li s) (si s) (lov s) (sov s) (txs s) true (dedup s) (lbad s) (sbad s)))
       as [-> ->]. simpl.
     rewrite apply_batch_wmap, fmap_delete, lookup_fmap. f_equal. f_equal. by destruct (txs s !! S t).
   - simpl. rewrite apply_batch_wmap, fmap_delete, lookup_fmap. f_equal. f_equal. by destruct (txs s !! S t).
@@ -169,7 +169,7 @@ Proof. unfold abs, abort, cleanups. simpl. by rewrite fmap_delete. Qed.
 Lemma abs_replicate b s : abs (replicate b s) = SSt (apply_batch b (rows s)) (sp_txs (abs s)).
 Proof.
   unfold abs, replicate.
-  destruct (observe_rows b (St (apply_batch b (rows s)) (li s) (si s) (lov s) (sov s) (txs s) (mode1 s) (dedup s))) as [-> ->].
+  destruct (observe_rows b (St (apply_batch b (rows s)) (li s) (si s) (lov s) (sov s) (txs s) (mode1 s) (dedup s) (lbad s) (sbad s))) as [-> ->].
   done.
 Qed.
 
@@ -184,6 +184,19 @@ Definition op_in_scope (o : op) : Prop :=
   | DeleteF _ f => nodup_keys f = true
   | _ => True
   end.
+
+Lemma uses_bad_false f : uses_bad false false f = false.
+Proof.
+  induction f as [ks|c m v|i vs|fs IH|fs IH|f IH] using ftree_ind'; simpl; try done.
+  - by destruct i.
+  - apply existsb_false_elem. intros x Hx. rewrite Forall_forall in IH. by apply IH.
+  - apply existsb_false_elem. intros x Hx. rewrite Forall_forall in IH. by apply IH.
+Qed.
+(* with both indexes valid the filter handed to Retrieve is the built one *)
+Lemma qbuild_valid s f : coh s -> qbuild s f = build f.
+Proof.
+  intros Hc. unfold qbuild. destruct (coh_valid _ Hc) as [-> ->]. by rewrite uses_bad_false.
+Qed.
 
 Theorem step_refines s o : coh s -> op_in_scope o -> abs (step s o).1 = sp_step (abs s) o.
 Proof.
@@ -200,6 +213,7 @@ Proof.
     + done.
   - (* update by filter *)
     rewrite <- open_abs. destruct (is_open s t) eqn:Eo; [|done]. destruct Hsc as [Hi Hn].
+    rewrite (qbuild_valid s f Hc).
     destruct (query_shape s t f) as [_ Hsh]. destruct (Hsh Hi) as [-> _]. simpl.
     rewrite (abs_fold_w_set (upd a b c)).
     assert (E : forall l acc, fold_left (fun acc x => sp_write t (rk (upd a b c x)) (Some (upd a b c x)) acc) l acc =
@@ -221,7 +235,7 @@ Proof.
     destruct (exec_keys (mk_keys ks) (view s t) ks) as [rs nf]. simpl in *. exact H.
   - (* delete by filter *)
     rewrite <- open_abs. destruct (is_open s t) eqn:Eo; [|done]. simpl.
-    rewrite (abs_fold_w_del rk).
+    rewrite (qbuild_valid s f Hc). rewrite (abs_fold_w_del rk).
     apply (sp_fold_perm (fun _ => None)); [by apply query_perm|].
     assert (P : map rk (q_rows (run_query s t (build f))) ≡ₚ map rk (sp_select (abs s) t (holds f)))
       by (apply Permutation_map; by apply query_perm).
@@ -247,6 +261,7 @@ Proof.
     + apply abs_abort.
     + unfold abs. simpl. f_equal. rewrite delete_notin; [done|]. rewrite lookup_fmap.
       unfold is_open in Eo. apply bool_decide_eq_false in Eo. apply eq_None_not_Some in Eo. by rewrite Eo.
+  - done.
 Qed.
 
 Theorem run_refines ops : forall s,
